@@ -30,7 +30,7 @@ func init() {
 				}
 			}
 			key := rsaKey(2048, ki)
-			cert := simpleCert(key, fmt.Sprintf("image signer %d", ki), int64(300+ki))
+			cert := simpleCert(key, fmt.Sprintf("image signer %d", ki)+a[2], int64(300+ki))
 			sig, err := p.Sign(key, cert)
 			if err != nil {
 				return []string{"err-sign"}
@@ -60,7 +60,7 @@ func init() {
 		return []string{peok, "false"}
 	}
 	checkers["C03"] = checker{
-		rule: "well-formed synthetic images (as in C01, small enough for the extracted SHA-256) crossed with signing histories of 1..3 steps (same or another 2048-bit key, with or without serialise/re-parse between steps; the image may already carry a table); the implementation's Bytes() is read by R_C03 (extracted check_signed_image): output well-formed, every original byte except the directory entry kept, zero padding, 8-aligned table spanned by the directory entry exactly to EOF, table = old entries || one revision-2.0 PKCS#7 WIN_CERTIFICATE per signature with correct length and padding, digest pre-image unchanged, Signatures() = old || new, every new signature embedding the digest of the output file; and compared byte for byte with the model's pe_bytes; then every signer's certificate must verify on Parse(out) and an unrelated certificate must not (R_C02); non-trivial = the history has at least one step and the image is well-formed; distinct by (image, history) hash",
+		rule: "well-formed synthetic images (as in C01, small enough for the extracted SHA-256) crossed with signing histories of 1..3 steps (same or another 2048-bit key, certificates sized so that the signature length takes every residue modulo 8, with or without serialise/re-parse between steps; the image may already carry a table); the implementation's Bytes() is read by R_C03 (extracted check_signed_image): output well-formed, every original byte except the directory entry kept, zero padding, 8-aligned table spanned by the directory entry exactly to EOF, table = old entries || one revision-2.0 PKCS#7 WIN_CERTIFICATE per signature with correct length and padding, digest pre-image unchanged, Signatures() = old || new, every new signature embedding the digest of the output file; and compared byte for byte with the model's pe_bytes; then every signer's certificate must verify on Parse(out) and an unrelated certificate must not (R_C02); non-trivial = the history has at least one step and the image is well-formed; distinct by (image, history) hash",
 		run:  runC03,
 	}
 }
@@ -81,10 +81,13 @@ func smallPESpec(rng *rand.Rand) peSpec {
 func runC03(c *Ctx) {
 	rng := c.Rng
 	n := c.N(70, 1000)
+	// the common name is padded per case so that the signature length takes every residue modulo 8
+	cnPad := ""
 	signerCert := func(ki int) *x509.Certificate {
-		return simpleCert(rsaKey(2048, ki), fmt.Sprintf("image signer %d", ki), int64(300+ki))
+		return simpleCert(rsaKey(2048, ki), fmt.Sprintf("image signer %d", ki)+cnPad, int64(300+ki))
 	}
 	for i := 0; i < n; i++ {
+		cnPad = strings.Repeat("x", i%8)
 		spec := smallPESpec(rng)
 		im := spec.build(rng)
 		steps := []string{}
@@ -102,7 +105,7 @@ func runC03(c *Ctx) {
 			steps = append(steps, st)
 		}
 		class := fmt.Sprintf("table=%v/steps=%d/reparse=%v", len(spec.certs) > 0, nsteps, anyReparse)
-		o := c.Impl("pe_sign_history", hx(im.bytes), strings.Join(steps, ","))
+		o := c.Impl("pe_sign_history", hx(im.bytes), strings.Join(steps, ","), cnPad)
 		if o.Class != "ret" || len(o.Fields) < 3 || o.Fields[0] != "ok" {
 			c.Rep.Record("pe_signed", class, true, "", []string{hx(im.bytes), strings.Join(steps, ",")}, "violation", append([]string{"signing failed: " + o.Class}, o.Fields...), nil)
 			continue
